@@ -6,5 +6,5 @@ Separate Extraction
   nat sample fullsample trun tfhd trex
   optimize optimize_pinned wire_trun resolve total_dur create_trun create_tfhd
   tfdt traf mdat frag op oclass dfrag
-  create_fragment create_multi step run_ops encode_frag encoded_len moof_size md_header_size
+  create_fragment create_multi with_extras step run_ops encode_frag encoded_len moof_size md_header_size
   set_offsets decoded_view get_full_samples.
